@@ -58,10 +58,10 @@ Det(M) ==
                 ELSE LET p  == CHOOSE i \in piv : \A j \in piv : i <= j
                          B  == IF p = kk THEN A ELSE [A EXCEPT ![kk] = A[p], ![p] = A[kk]]
                          s2 == IF p = kk THEN sgn ELSE -sgn
-                         C  == [i \in 1..m |-> [j \in 1..m |->
+                         C  == TLCEval([i \in 1..m |-> [j \in 1..m |->
                                   IF i > kk /\ j > kk
                                   THEN (B[i][j] * B[kk][kk] - B[i][kk] * B[kk][j]) \div prev
-                                  ELSE B[i][j]]]
+                                  ELSE B[i][j]]])
                      IN Go(C, kk + 1, B[kk][kk], s2)
   IN IF m = 0 THEN 1 ELSE Go(M, 1, 1, 1)
 
@@ -88,19 +88,63 @@ SigmaNum(P, k, x) == DetW([P EXCEPT ![k] = x])
 
 \* least-Frobenius-norm interpolant of the values r on P: Cramer numerators over den
 \* q(x) = (c + g.x + sum_k mu[k] (P[k].x)^2) / den ;  Hessian = 2 sum_k mu[k] P[k] P[k]^T / den
+\* fraction-free solution of M x = rhs (Bareiss forward elimination of the augmented matrix,
+\* then fraction-free back substitution): integers X and den with x = X / den, den = +-Det(M)
+SolveFF(M, rhs) ==
+  LET m == Len(M)
+      Aug == [i \in 1..m |-> [j \in 1..(m + 1) |-> IF j <= m THEN M[i][j] ELSE rhs[i]]]
+      RECURSIVE Fwd(_, _, _)
+      Fwd(A, kk, prev) ==
+        IF kk = m THEN A
+        ELSE LET piv == {i \in kk..m : A[i][kk] # 0}
+             IN IF piv = {} THEN [A EXCEPT ![m][m] = 0]
+                ELSE LET p == CHOOSE i \in piv : \A j \in piv : i <= j
+                         B == IF p = kk THEN A ELSE [A EXCEPT ![kk] = A[p], ![p] = A[kk]]
+                         C == TLCEval([i \in 1..m |-> [j \in 1..(m + 1) |->
+                                 IF i > kk /\ j > kk
+                                 THEN (B[i][j] * B[kk][kk] - B[i][kk] * B[kk][j]) \div prev
+                                 ELSE B[i][j]]])
+                     IN Fwd(C, kk + 1, B[kk][kk])
+      U == TLCEval(Fwd(Aug, 1, 1))
+      d == U[m][m]
+      RECURSIVE Back(_, _)
+      Back(i, X) ==
+        IF i = 0 THEN X
+        ELSE LET s  == SumTo([j \in 1..m |-> IF j > i THEN U[i][j] * X[j] ELSE 0], m)
+                 xi == (d * U[i][m + 1] - s) \div U[i][i]
+             IN Back(i - 1, [X EXCEPT ![i] = xi])
+  IN IF d = 0 THEN [den |-> 0, X |-> [i \in 1..m |-> 0]]
+     ELSE [den |-> d, X |-> Back(m, [i \in 1..m |-> 0])]
+
 LFN(P, r) ==
   LET npt == Len(P)
       n   == Len(P[1])
       m   == npt + n + 1
-      M   == W(P)
       rhs == [i \in 1..m |-> IF i <= npt THEN r[i] ELSE 0]
-      sol == [j \in 1..m |-> Det(ReplaceCol(M, j, rhs))]
-  IN [den |-> Det(M),
+      S   == TLCEval(SolveFF(W(P), rhs))
+      sol == S.X
+  IN [den |-> S.den,
       mu  |-> [kk \in 1..npt |-> sol[kk]],
       c   |-> sol[npt + 1],
       g   |-> [i \in 1..n |-> sol[npt + 1 + i]],
       H   |-> [a \in 1..n |-> [b \in 1..n |->
                 2 * SumTo([kk \in 1..npt |-> sol[kk] * P[kk][a] * P[kk][b]], npt)]]]
+
+\* the same by Cramer's rule (m + 1 determinants): used to cross-check SolveFF
+LFNCramer(P, r) ==
+  LET npt == Len(P)
+      n   == Len(P[1])
+      m   == npt + n + 1
+      M   == TLCEval(W(P))
+      rhs == [i \in 1..m |-> IF i <= npt THEN r[i] ELSE 0]
+  IN [den |-> Det(M), X |-> [j \in 1..m |-> Det(ReplaceCol(M, j, rhs))]]
+SolveAgrees(P, r) ==   \* X / den equal as rationals
+  LET A == LFNCramer(P, r)
+      npt == Len(P)
+      n == Len(P[1])
+      rhs == [i \in 1..(npt + n + 1) |-> IF i <= npt THEN r[i] ELSE 0]
+      B == SolveFF(W(P), rhs)
+  IN \A j \in 1..(npt + n + 1) : A.X[j] * B.den = B.X[j] * A.den
 
 (* --------------------------------------- models with rational coefficients *)
 \* [c |-> rat, g |-> seq of rat, H |-> n x n rats]: q(x) = c + g.x + 1/2 x^T H x
@@ -125,8 +169,9 @@ AddScaled(q, d, q2) ==        \* q + d * q2   (d rational)
 Unit(npt, k) == [i \in 1..npt |-> IF i = k THEN 1 ELSE 0]
 UpdateModel(q, P, k, x, f) ==
   LET P2 == [P EXCEPT ![k] = x]
-      err == RAdd(RInt(f), RNeg(EvalModel(q, x)))
-  IN AddScaled(q, err, ModelOf(LFN(P2, Unit(Len(P), k))))
+      err == TLCEval(RAdd(RInt(f), RNeg(EvalModel(q, x))))
+      lag == TLCEval(ModelOf(TLCEval(LFN(P2, Unit(Len(P), k)))))
+  IN TLCEval(AddScaled(q, err, lag))
 
 (* ------------------------------------------------------------ universes *)
 CONSTANTS N,            \* dimension (1 or 2)
@@ -135,6 +180,7 @@ CONSTANTS N,            \* dimension (1 or 2)
           Vals,         \* values used for update histories
           MaxHist       \* bound on the length of update histories
 
+Pred == 99        \* "the value the current model predicts" (zero interpolation error)
 Lattice == IF N = 1 THEN {<<a>> : a \in Coord} ELSE {<<a, b>> : a \in Coord, b \in Coord}
 
 \* point sets as strictly increasing sequences w.r.t. an arbitrary fixed order: all subsets
@@ -159,7 +205,7 @@ ExportSet ==
      lagrange |-> [kk \in 1..Len(P) |-> LFN(P, Unit(Len(P), kk))]]))
 SetsNext == /\ hist = <<>>
             /\ hist' = <<"done">>
-            /\ (Poised(P) => ExportSet)
+            /\ (Poised(P) => (ExportSet /\ Assert(SolveAgrees(P, Unit(Len(P), 1)), <<"SolveFF disagrees with Cramer", P>>)))
             /\ UNCHANGED <<P, q>>
 SetsSpec == SetsInit /\ [][SetsNext]_ivars
 
@@ -169,27 +215,46 @@ StdSet(npt) ==   \* 0, +e_i, -e_i, then e_1+e_2 : the solver's own initial patte
              ELSE << <<0, 0>>, <<1, 0>>, <<0, 1>>, <<-1, 0>>, <<0, -1>>, <<1, 1>> >>
   IN SubSeq(all, 1, npt)
 
-HistInit == \E npt \in Npts : \E r \in [1..npt -> Vals] :
+HistInit == \E npt \in Npts : \E r \in [1..npt -> (Vals \ {99})] :
               /\ P = StdSet(npt)
-              /\ q = ModelOf(LFN(P, r))
+              /\ q = TLCEval(ModelOf(TLCEval(LFN(P, r))))
               /\ hist = << [a |-> "build", r |-> r] >>
 Replace(kk, x, f) ==
   /\ Len(hist) <= MaxHist
   /\ x \notin {P[i] : i \in 1..Len(P)}
   /\ Poised([P EXCEPT ![kk] = x])
-  /\ q' = UpdateModel(q, P, kk, x, f)
+  \* f = Pred: the new value is exactly the value the model predicts (zero interpolation
+  \* error): the prescribed correction is the zero quadratic
+  /\ q' = IF f = Pred THEN q ELSE UpdateModel(q, P, kk, x, f)
   /\ P' = [P EXCEPT ![kk] = x]
   /\ hist' = Append(hist, [a |-> "replace", k |-> kk, x |-> x, f |-> f])
 HistNext == \E kk \in 1..Len(P), x \in Lattice, f \in Vals : Replace(kk, x, f)
 HistSpec == HistInit /\ [][HistNext]_ivars
+\* for -simulate: the arguments are drawn before the (expensive) update is computed, so that
+\* the simulator does not evaluate every successor of a state in order to pick one
+\* (a value drawn at random is bound by quantifying over a singleton set: TLC evaluates the
+\* set once, whereas a LET definition may be re-evaluated for each primed conjunct)
+HistNextRandom == \E kk \in {RandomElement(1..Len(P))}, x \in {RandomElement(Lattice)},
+                     f \in {RandomElement(Vals)} : Replace(kk, x, f)
+ZeroModel == [c |-> <<0, 1>>, g |-> [i \in 1..N |-> <<0, 1>>],
+              H |-> [a \in 1..N |-> [b \in 1..N |-> <<0, 1>>]]]
+HistSimInit == \E npt \in Npts : P = StdSet(npt) /\ q = ZeroModel /\ hist = <<>>
+BuildRandom == /\ hist = <<>>
+               /\ \E r \in {[i \in 1..Len(P) |-> RandomElement(Vals \ {Pred})]} :
+                     /\ q' = ModelOf(LFN(P, r))
+                     /\ hist' = << [a |-> "build", r |-> r] >>
+               /\ UNCHANGED P
+HistSimSpec == HistSimInit /\ [][BuildRandom \/ (hist # <<>> /\ HistNextRandom)]_ivars
 
 \* the oracle's own sanity: the exact model interpolates the recorded values
 Recorded == \* value recorded for each current point, reconstructed from the history
   LET RECURSIVE Val(_, _)
       Val(i, t) == IF t = 1 THEN hist[1].r[i]
                    ELSE IF hist[t].k = i THEN hist[t].f ELSE Val(i, t - 1)
+
   IN [i \in 1..Len(P) |-> Val(i, Len(hist))]
-Interpolates == q # "none" => \A i \in 1..Len(P) : EvalModel(q, P[i]) = <<Recorded[i], 1>>
+Interpolates == hist # <<>> => \A i \in 1..Len(P) :
+                  Recorded[i] = Pred \/ EvalModel(q, P[i]) = <<Recorded[i], 1>>
 
 ExportHist == Len(hist) > MaxHist => PrintT("EXPORT " \o ToJson([P |-> P, q |-> q, hist |-> hist]))
 =============================================================================
